@@ -175,11 +175,18 @@ def handleGate (fs : List (String × String)) : String := Id.run do
   let agree := acted == expActed && (replied == expReplied || (path == "str" && gate.isSome && !pass))
   return verdict agree bad (slen > 0 || rlen > 0) s!"gate-{path}" (if agree then "" else s!"model=acted:{expActed},replied:{expReplied}")
 
+/-- C16 (alias leg): a packet handed to a transport that keeps the slice is never rewritten afterwards -/
+def handleAlias (fs : List (String × String)) : String :=
+  let rw := (getNat fs "rewritten").getD 0
+  verdict (rw == 0) (if rw == 0 then none else some s!"packet-handed-to-the-transport-was-rewritten-by-a-later-send:{rw}-of-{getD fs "sends" "?"}:{getD fs "first" "?"}")
+    true "alias" ""
+
 def handleC16 (kind : String) (fs : List (String × String)) : String :=
   match kind with
   | "lbl" => handleLbl fs
   | "rm" => handleRm fs
   | "gate" => handleGate fs
+  | "alias" => handleAlias fs
   | _ => "PARSE kind"
 
 /-! ### C12 -/
